@@ -81,49 +81,16 @@ def configs(tier):
     return out
 
 
-def run_config(cfg):
-    from harness import l2
-    import importlib
-    cfg = dict(cfg)
-    mod, _, fn = cfg['final'].partition(':')
-    cfg['final'] = getattr(importlib.import_module(mod), fn)
-    cfg['stop_on_violation'] = True
-    return l2.explore_config(cfg)
-
-
 def main(tier, seed, only=None):
-    rep = report.Report('C01', tier, seed)
-    cfgs = [c for c in configs(tier) if not only or c['name'] in only]
-    order = list(range(len(cfgs)))
-    random.Random(seed).shuffle(order)
-    res = par.pmap('harness.c01:run_config', [cfgs[i] for i in order])
-    for i, r in zip(order, res):
-        cfg = cfgs[i]
-        rep.part(cfg['name'], evaluations=r['transitions'],
-                 states=r['states'], transitions=r['transitions'],
-                 outcomes=r['outcomes'].keys(), samples=r['samples'],
-                 capped=r['capped'], max_depth=r['max_depth'],
-                 events=r['events'], settled=r['settled'],
-                 depth_bound=cfg['depth'])
-        for v in r['violations']:
-            rep.violation(v['message'] + '\nconfig=%s' % cfg['name'],
-                          dict(harness='c01', config=cfg['name'],
-                               history=v['history']),
-                          signature=v['signature'])
-    rep.assume('workers behave as WorkerSpec (established for the real Worker '
-               'by the L1 harness, C03)',
-               'workers die only while running task code or between jobs '
-               '(the property\'s own carve-out)',
-               'event-level atomicity of parent handlers (threads=False); '
-               'thread-level races are explored by the L3 harness')
-    return rep.finish()
+    from harness import l2run
+    return l2run.run('C01', tier, seed, configs(tier), [
+        'workers die only while running task code or between jobs (the '
+        'property\'s own carve-out)',
+        'an IOError from the task pipe is reachable only once the pipe was '
+        'closed (terminate()): injected put failures are serialisation '
+        'failures'], only)
 
 
 def replay(rp):
-    from harness import l2
-    cfg = [c for c in configs('thorough') + configs('quick')
-           if c['name'] == rp['config']][0]
-    cfg = dict(cfg)
-    cfg['final'] = final
-    v, sig = l2.replay_history(cfg, rp['history'])
-    return 1 if v else 0
+    from harness import l2run
+    return l2run.replay('C01', rp, configs('thorough') + configs('quick'))
